@@ -136,7 +136,7 @@ prop('C11', ['S1', 'S2', 'S3', 'K2', 'NS1'],
      'The loader looks custom types up in the recorded namespace (NS1).',
      ['cross-process behaviour', 'protocols', 'post-load equality'])
 
-prop('C12', ['G7', 'G1', 'G2', 'G3', 'G4', 'G8', 'G5', 'G6', 'L4', 'K6', 'K6py', 'NS1', 'D4', 'D5', 'I5', 'B1'],
+prop('C12', ['G7', 'G1', 'G2', 'G3', 'G4', 'G8', 'G5', 'G6', 'L4', 'K6', 'K6py', 'NS1', 'D4', 'D5', 'I5', 'B1', 'G9'],
      'Registry: validation dominates mutation and nothing fallible follows the first mutation '
      '(G1); no C-API failure result is ignored (G2); the Python mirror is written only after the '
      'engine call, under the lock, with the same key, by exactly two functions (G3); a mutation '
@@ -155,7 +155,7 @@ prop('C13', ['D1', 'D2', 'D3', 'D4', 'K2', 'NS1', 'G4', 'D5'],
      'The context manager validates its namespace before anything is switched (G4).',
      ['restoration over all nestings (follows from D1 by an induction the checker does not make)'])
 
-prop('C14', ['A1', 'A3', 'A5', 'A6', 'A7', 'G5', 'M3'],
+prop('C14', ['A1', 'A3', 'A5', 'A6', 'A7', 'G5', 'M3', 'A8'],
      'Immutability / aliasing / GC: inspection methods return fresh containers and all bound '
      'methods are const (A1); tp_traverse visits every Python object a node holds and the fields '
      'are owning types (A3); in-place mutators are applied only to objects created by the same '
